@@ -14,6 +14,11 @@ from .refs.hll_ref import windows
 #   ["udict", [[key, v]...]]   update(dict)   (insertion order preserved)
 #   ["ngram", key, n]          add_ngram(key, n)
 #   ["ungram", [key...], n]    update_ngram(list, n)
+#   ["ulist_nested", [key...], pos]   update(generator) whose production, before item pos, calls update([first key]) on the
+#                                     same sketch in the same thread (re-entrant use of update)
+# The *form* of each call (positional / keyword arguments under their documented names, list / tuple / generator / iterator /
+# map for "a list of keys", dict / Counter / OrderedDict / defaultdict for "a dict") is derived from the operation's content,
+# so that a recorded case replays with the same forms.
 
 
 class BadItem:
@@ -34,6 +39,9 @@ def effects(op):
         return [(unhx(op[1]), 1)]
     if t == "ulist":
         return [(unhx(k), 1) for k in op[1]]
+    if t == "ulist_nested":
+        ks = [unhx(k) for k in op[1]]
+        return [(k, 1) for k in ks[: op[2]] + ks[:1] + ks[op[2]:]]
     if t == "udict":
         return [(unhx(k), int(v)) for k, v in op[1]]
     if t == "ngram":
@@ -44,6 +52,9 @@ def effects(op):
             out.extend((w, 1) for w in windows(unhx(k), int(op[2])))
         return out
     raise ValueError(op)
+
+
+FORMS = True  # argument-form diversity (set False to call every entry point positionally with list/dict arguments)
 
 
 def _typed(v, salt):
@@ -79,17 +90,77 @@ def apply_op(sketch, op):
         sketch.update([ks[i % len(ks)] for i in range(int(op[2]))])
         return None
     if t == "add":
-        sketch.add(unhx(op[1]), _typed(op[2], len(op[1])))
+        k, v = unhx(op[1]), _typed(op[2], len(op[1]))
+        form = (len(op[1]) // 2 + int(op[2])) % 6 if FORMS else 0
+        if form == 4:
+            sketch.add(k, value=v)
+        elif form == 5:
+            sketch.add(key=k, value=v)
+        else:
+            sketch.add(k, v)
     elif t == "add1":
-        sketch.add(unhx(op[1]))
+        if FORMS and len(op[1]) % 6 == 4:
+            sketch.add(key=unhx(op[1]))
+        else:
+            sketch.add(unhx(op[1]))
     elif t == "ulist":
-        sketch.update([unhx(k) for k in op[1]])
+        ks = [unhx(k) for k in op[1]]
+        form = (len(ks) + (len(ks[0]) if ks else 0)) % 8 if FORMS else 0
+        if form == 3:
+            sketch.update(k for k in ks)  # a generator: consumed once
+        elif form == 4:
+            sketch.update(iter(ks))
+        elif form == 5:
+            sketch.update(map(bytes, ks))
+        elif form == 6:
+            sketch.update(tuple(ks))
+        elif form == 7:
+            sketch.update(keys=ks)
+        else:
+            sketch.update(ks)
+    elif t == "ulist_nested":
+        ks = [unhx(k) for k in op[1]]
+
+        def produce():
+            for i, k in enumerate(ks):
+                if i == op[2]:
+                    sketch.update([ks[0]])
+                yield k
+            if op[2] >= len(ks):
+                sketch.update([ks[0]])
+
+        sketch.update(produce())
     elif t == "udict":
-        sketch.update({unhx(k): _typed(v, i) for i, (k, v) in enumerate(op[1])})
+        d = {unhx(k): _typed(v, i) for i, (k, v) in enumerate(op[1])}
+        form = (len(d) + sum(len(k) for k in d)) % 6 if FORMS else 0
+        if form == 2:
+            import collections
+
+            d = collections.Counter(d)
+        elif form == 3:
+            import collections
+
+            d = collections.OrderedDict(d)
+        elif form == 4:
+            import collections
+
+            dd = collections.defaultdict(int)
+            dd.update(d)
+            d = dd
+        if form == 5:
+            sketch.update(keys=d)
+        else:
+            sketch.update(d)
     elif t == "ngram":
-        sketch.add_ngram(unhx(op[1]), int(op[2]))
+        if FORMS and (len(op[1]) + int(op[2])) % 5 == 3:
+            sketch.add_ngram(key=unhx(op[1]), ngram=int(op[2]))
+        else:
+            sketch.add_ngram(unhx(op[1]), int(op[2]))
     elif t == "ungram":
-        sketch.update_ngram([unhx(k) for k in op[1]], int(op[2]))
+        if FORMS and (len(op[1]) + int(op[2])) % 5 == 3:
+            sketch.update_ngram(keys=[unhx(k) for k in op[1]], ngram=int(op[2]))
+        else:
+            sketch.update_ngram([unhx(k) for k in op[1]], int(op[2]))
     else:
         raise ValueError(op)
 
@@ -120,6 +191,9 @@ def gen_op(rng, keys, max_value=None, ngram=True, big=0.12, zero=0.05, max_batch
         if 0.05 <= r2 < 0.09 and failing:
             ks = [hx(pick()) for _ in range(int(rng.integers(1, max_batch + 2)))]
             return ["ulist_bad", ks, int(rng.integers(0, len(ks) + 1))]
+        if 0.09 <= r2 < 0.12:
+            ks = [hx(pick()) for _ in range(int(rng.integers(1, max_batch + 2)))]
+            return ["ulist_nested", ks, int(rng.integers(0, len(ks) + 1))]
         if r2 < 0.03:
             # long lists of typical batch sizes (batched kernels cut remainders somewhere)
             n = int([64, 65, 128, 256, 500, 512, 1000, 1023, 1024, 1025, 2048][int(rng.integers(0, 11))])
